@@ -16,7 +16,7 @@ enum Child {
     Pkg { name: String },
     Elem { kind: ElementName, name: String },
     Param { textual: bool, defref: String, value: String, annotations: Vec<String> },
-    Container { name: String, defref: String, index: Option<u64> },
+    Container { name: String, defref: Option<String>, index: Option<u64> },
     FibexRef { dest: EnumItem, target: String },
     /// CAN-TP-CONNECTION without name, told apart by a float valued and an unsigned valued child
     TpConn { timeout: f64, max_block: Option<u64> },
@@ -84,9 +84,11 @@ fn build(version: AutosarVersion, family: usize, children: &[Child], nested_perm
                     if let Some(i) = index {
                         c.create_sub_element(ElementName::Index)?.set_character_data(i.to_string())?;
                     }
-                    let d = c.create_sub_element(ElementName::DefinitionRef)?;
-                    d.set_attribute(AttributeName::Dest, CharacterData::Enum(EnumItem::EcucParamConfContainerDef))?;
-                    d.set_character_data(defref.as_str())?;
+                    if let Some(defref) = defref {
+                        let d = c.create_sub_element(ElementName::DefinitionRef)?;
+                        d.set_attribute(AttributeName::Dest, CharacterData::Enum(EnumItem::EcucParamConfContainerDef))?;
+                        d.set_character_data(defref.as_str())?;
+                    }
                 }
                 Child::TpConn { timeout, max_block } => {
                     let c = parent.create_sub_element(ElementName::CanTpConnection)?;
@@ -147,7 +149,8 @@ fn gen_children(rng: &mut Rng, family: usize) -> Vec<Child> {
             }
             3 => Child::Container {
                 name,
-                defref: (*rng.pick(&defrefs)).to_string(),
+                // some containers without DEFINITION-REF: the comparison must stay a total order when only one side has the key
+                defref: if rng.chance(3, 4) { Some((*rng.pick(&defrefs)).to_string()) } else { None },
                 index: if rng.chance(1, 2) { Some(rng.below(12) as u64) } else { None },
             },
             5 => Child::TpConn {
